@@ -131,7 +131,7 @@ def part_requests(ctx: Ctx, out: Outcome, rng: random.Random) -> dict:
                                       timeout=900), "Requests design + family")
     for inv in fres.violated:
         out.violations.append(Violation("C14:design:Requests:" + inv, "Requests.tla violates " + inv, {"kind": "design"}))
-    fam.sort(key=lambda d: (sorted(d["carriers"]), d["declared"], d["workers"], d["provider_scope"]))
+    fam.sort(key=lambda d: (sorted(d["carriers"]), d["declared"], d["workers"], d["provider_scope"], d["provider_kind"]))
     full = [d for d in fam if len(d["carriers"]) >= 6 and "key" not in d["carriers"]]
     keyed = [d for d in fam if "key" in d["carriers"]]
     k = 18 if ctx.quick else 300
@@ -148,7 +148,7 @@ def part_requests(ctx: Ctx, out: Outcome, rng: random.Random) -> dict:
         if r.get("machinery"):
             raise RuntimeError("requests driver failed: %s on %s" % (r["machinery"], r["desc"]))
     obs = ctx.path("req_obs.json")
-    tlc.write_json(obs, [{"hdr": {k2: r["hdr"][k2] for k2 in ("carriers", "user", "applies")},
+    tlc.write_json(obs, [{"hdr": dict({k2: r["hdr"][k2] for k2 in ("carriers", "user", "applies")}, issued=r["hdr"]["issued_by_key"]),
                           "lines": [{"op": ln["op"], "ph": ln["ph"], "vals": ln["vals"], "probe": ln["probe"], "parent": ln["parent"]}
                                     for ln in r["lines"]]} for r in runs])
     j = tlc.require_ok(tlc.run_tlc("RequestsTrace", "RequestsTrace.cfg", env={"OBS_FILE": obs}, workers=1, timeout=1800, heap="8g"),
@@ -165,6 +165,12 @@ def part_requests(ctx: Ctx, out: Outcome, rng: random.Random) -> dict:
             nrej += 1
             t, line, c, ph, op = p[1], p[2], p[3], p[4], p[5]
             r = runs[t - 1]
+            if c == 0 and ph == 1:
+                out.violations.append(Violation("C14:requests:provider-fetched-more-than-once:%s:workers=%d" % (r["desc"].get("provider_kind", "class"), r["desc"]["workers"]),
+                                                "the auth provider was asked for its token %s times per cache key within one refresh interval; config %s" % (
+                                                    r["hdr"]["issued_by_key"], r["desc"]),
+                                                {"kind": "requests", "desc": r["desc"], "carrier": "prov", "phase": 0, "op": 0}))
+                continue
             if c == 0:
                 out.violations.append(Violation("C14:requests:probe-budget", "more credential probes than one stripped + one invalid per probed request; config %s" % r["desc"],
                                                 {"kind": "requests", "desc": r["desc"], "carrier": "key", "phase": 0, "op": 0}))
